@@ -37,7 +37,8 @@ PROTO_METHODS = ['_unitary_', '_has_unitary_', '_kraus_', '_has_kraus_', '_mixtu
                  '_superoperator_', '_has_superoperator_', '_circuit_diagram_info_', '_qasm_']
 
 KERNEL_PROBES = [(1, 0), (1, 0.3), (1, -0.5), (0.5, 0), (0.25, 0.2), (-1, 0), (2, 0), (1.5, 0.5), (3, 0),
-                 (2, -0.5), (-2, 0.25), (4, 0.125), (0, 0.7), (6, -0.5)]  # whole turns with a shift phase: identity fast paths must keep the phase
+                 (2, -0.5), (-2, 0.25), (4, 0.125), (0, 0.7), (6, -0.5),   # whole turns with a shift phase: identity fast paths must keep the phase
+                 (np.float32(0.5), 0), (np.float64(0.25), 0.5), (np.float32(1.5), 0)]   # numpy scalars as exponents: `(-1) ** e` is nan / raises for them where `1j ** (2 * e)` is right
 
 
 class _GiveUp(Exception):
@@ -111,7 +112,7 @@ def run(ctx):
         accepted = 0
         unsupported = None
         for e, s in KERNEL_PROBES:
-            u = sum(np.exp(1j * np.pi * e * (t + s)) * m for t, m in comps)
+            u = sum(np.exp(1j * np.pi * float(e) * (t + s)) * m for t, m in comps)
             for col, idx in enumerate(itertools.product(range(d), repeat=n_axes)):
                 try:
                     res, tgt, buf, orig = _run_kernel(ci, fn, n_axes, dim, e, s, idx)
